@@ -250,7 +250,8 @@ theorem encodeBuf_eq (cap : Option Nat) (p : List UInt8) :
       have hk : (4 - b2.len % 4) % 4 = padLen (Spec.START ++ stuff p).length := by
         rw [hlen]; rfl
       simp only [hk]
-      rw [take_zeros (Spec.padLen_lt_4 _)]
+      rw [if_neg (by have := Spec.padLen_lt_4 (Spec.START ++ stuff p).length; omega),
+        take_zeros (Spec.padLen_lt_4 _)]
       cases h3 : b2.extend (List.replicate (padLen (Spec.START ++ stuff p).length) 0) with
       | none => rw [Buf.extend_append_of_none h3]; rfl
       | some b3 =>
@@ -420,12 +421,22 @@ theorem run_payload (q : List UInt8) :
 
 /-! #### the trailer -/
 
+/-- `End(6)`, `End(7)`: the index into `crc_bytes` is in range (the explicit panic site
+`encode.rs:121` is not taken) -/
+theorem nextFin_crc (e : Enc) {m : Int} (h6 : 6 ≤ m) (h8 : m < 8) :
+    nextFin e m = ({ e with st := .fin (m + 1) },
+      .byte (if m = 6 then (crcFinal e.crc).toUInt8 else ((crcFinal e.crc) >>> 8).toUInt8)) := by
+  have hm : m = 6 ∨ m = 7 := by omega
+  rcases hm with rfl | rfl <;> simp [nextFin, le16]
+
 /-- `nextFin` never looks at the stored state (below the unreachable arm) -/
 theorem nextFin_with_st (e : Enc) (st' : EState) {m : Int} (hm : m ≤ 8) :
     nextFin { e with st := st' } m = nextFin e m := by
-  unfold nextFin
-  repeat' split
-  all_goals first | rfl | omega
+  by_cases h : 6 ≤ m ∧ m < 8
+  · rw [nextFin_crc _ h.1 h.2, nextFin_crc _ h.1 h.2]
+  · unfold nextFin
+    repeat' split
+    all_goals first | rfl | omega
 
 theorem next_fin {e : Enc} {m : Int} (h : e.st = .fin m) : e.next = nextFin e m := by
   unfold next; simp [h]
